@@ -823,12 +823,12 @@ def r145(ctx, R):
                 iff.body[0], ast.Return) and src(iff.body[0].value) == fn \
                 and not iff.orelse
             # the list walked is this name's registration list
-            it = lp.iter
-            if isinstance(it, ast.Name):
-                dd = c05.single_def(fm, it.id)
-                it = dd.value if dd is not None else it
-            okf = okf and 'VERSIONED_METHODS' in src(it) and ps[0] in \
-                C.names_in(it)
+            deps = C.FlowDeps(fm)
+            okf = okf and deps.reaches(
+                lp.iter, lambda x: isinstance(x, ast.Name)
+                and x.id == 'VERSIONED_METHODS') and deps.reaches(
+                    lp.iter, lambda x: isinstance(x, ast.Name)
+                    and x.id == ps[0])
     rs = [r for r in own_nodes(fm.node) if isinstance(r, ast.Raise)]
     okf = okf and len(rs) == 1 and len(ps) >= 3 and src(rs[0].exc).replace(
         'webob.exc.', '') == 'status_map[%s]' % ps[2]
